@@ -361,6 +361,8 @@ def run(rep, tier):
         rep.call(c14.band_start, rep, prog, "C13.band-start")
         rep.call(no_address_dependence, rep, prog, "C13.no-address-dependence")
         rep.call(loadwidth.guard_adequacy, rep, prog, "C13.row-end", loadwidth.FLOOR.get(cfg, 50))
+        from ..engines import row_coverage
+        rep.call(row_coverage.row_length, rep, prog, "C13.row-length")
     if tier == "thorough":
         rep.set_cfg("witness")
         rep.call(witness.report, rep, "C13.types", ["W6"])
